@@ -7,7 +7,7 @@
 (***************************************************************************)
 EXTENDS Machine, TLAPS
 
-ASSUME ConstAssump == N \in Nat /\ N >= 1 /\ Me \in Part /\ MaxVer \in Nat
+ASSUME ConstAssump == N \in Nat /\ N >= 1 /\ Me \in Part /\ MaxVer \in Nat /\ WithNarrow \in BOOLEAN
 
 IsTx(t) == /\ t = [st |-> t.st, sigs |-> t.sigs]
            /\ t.sigs = [i \in Part |-> t.sigs[i]]
